@@ -419,8 +419,18 @@ func checkC08(p *Program, r *Report) {
 	why := nilOnErrorTrie(p, entry)
 	r.Check(why == "", "trie.NewSlimTrie returns no trie with an error", p.Pos(entry.Pos()), "every return with a possibly non-nil error has a nil trie", why)
 
-	// ---- narrow
-	r.Rule("C08.narrow", "E9", "no unbounded narrowing of a stored quantity", 1)
+	checkNarrowAs(p, r, "C08.narrow", entry, F)
+	checkRejectReasonsAs(p, r, "C08.accept")
+	// ---- never mis-indexed (shared with C01): an accepted input is decoded with the node sizes it was built with
+	checkBigZone(p, r, "C08.bigzone")
+}
+
+// checkNarrowAs (C08.narrow; shared with the properties that promise lookups on whatever was accepted:
+// C12 through SlimIndex, C13 "identical answers for retained keys in every mode"): every conversion of
+// a wider integer to an 8/16-bit type in code reachable from the construction function or the legacy
+// rebuild is bounded.
+func checkNarrowAs(p *Program, r *Report, rule string, entry, F *ssa.Function) {
+	r.Rule(rule, "E9", "no unbounded narrowing of a stored quantity", 1)
 	roots := []*ssa.Function{F}
 	un := p.Method(p.Trie, "SlimTrie", "Unmarshal")
 	scope := trieReach(entry)
@@ -482,9 +492,6 @@ func checkC08(p *Program, r *Report) {
 	if len(sites) == 0 {
 		r.Unk("narrowing conversions", "", "none found in the build scope (the 16-bit step encoder is gone?)")
 	}
-	checkRejectReasons(p, r)
-	// ---- never mis-indexed (shared with C01): an accepted input is decoded with the node sizes it was built with
-	checkBigZone(p, r, "C08.bigzone")
 }
 
 func dedupFuncs(fs []*ssa.Function) []*ssa.Function {
